@@ -1,6 +1,7 @@
 package main
 
 import (
+	"regexp"
 	"fmt"
 	"go/ast"
 	"go/token"
@@ -840,6 +841,15 @@ func (f *FuncCtx) callContract(fn *types.Func, c *FuncContract, pc *PkgContracts
 			if strings.Contains(cl.Text, "ncalls(") {
 				continue // ghost call counters are local to the callee's own body
 			}
+			usesGhost := false
+			for _, gv := range c.GhostVars {
+				if regexp.MustCompile(`\b` + regexp.QuoteMeta(gv.Name) + `\b`).MatchString(cl.Text) {
+					usesGhost = true // so are the callee's ghost variables
+				}
+			}
+			if usesGhost {
+				continue
+			}
 			g := f.evalClause(cl, env, mk(results, pre))
 			f.assume(env, g)
 		}
@@ -1090,6 +1100,34 @@ func (f *FuncCtx) builtin(name string, e *ast.CallExpr, env *Env) []Val {
 		f.assign(e.Args[0], Val{T: f.mapDelete(m, k, mt), Typ: m.Typ}, env)
 		return nil
 	case "copy":
+		if se, ok := ast.Unparen(e.Args[0]).(*ast.SliceExpr); ok && !se.Slice3 {
+			// copy(x[lo:hi], src): the destination is a window of x
+			base := f.expr(se.X, env)
+			if arr, isArr := base.Typ.Underlying().(*types.Array); isArr && !f.S.bv {
+				if n, isB := byteArray(arr); isB {
+					if st, isSl := f.typeOf(e.Args[1]).Underlying().(*types.Slice); isSl && isByte(st.Elem()) {
+						srt := f.S.SortOf(base.Typ)
+						lo, hi := "0", fmt.Sprint(n)
+						if se.Low != nil {
+							lo = f.coerce(f.expr(se.Low, env), intT).T
+						}
+						if se.High != nil {
+							hi = f.coerce(f.expr(se.High, env), intT).T
+						}
+						src := f.name(ev(1), "src")
+						cnt := f.define("ncopy", "Int", fmt.Sprintf("(ite (< (- %s %s) (s_len %s)) (- %s %s) (s_len %s))", hi, lo, src.T, hi, lo, src.T))
+						na := f.fresh("copied", srt)
+						f.emit(fmt.Sprintf("(assert (forall ((i!c Int)) (! (=> (and (<= 0 i!c) (< i!c %d)) (= (at_%s %s i!c) (ite (and (<= %s i!c) (< i!c (+ %s %s))) (select (s_arr %s) (- i!c %s)) (at_%s %s i!c)))) :pattern ((at_%s %s i!c)))))",
+							n, srt, na, lo, lo, cnt, src.T, lo, srt, base.T, srt, na))
+						f.assign(se.X, Val{T: na, Typ: base.Typ}, env)
+						return []Val{{T: cnt, Typ: intT}}
+					}
+				}
+			}
+			f.note("copy() into a window abstracted: the whole destination object is havocked")
+			f.assign(se.X, f.freshVal(base.Typ, "copy"), env)
+			return []Val{f.freshVal(intT, "n")}
+		}
 		f.note("copy() abstracted: destination havocked")
 		d := ev(0)
 		f.assign(e.Args[0], f.freshVal(d.Typ, "copy"), env)
